@@ -301,6 +301,11 @@ def run(ctx):
     ctor = [c for c in calls_in(it) if norm(c.func) == "self.desc.recordType" and any(k.arg is None for k in c.keywords)]
     ctx.check(bool(ctor), "R19.4", "AvroReader.__iter__:constructs", "records are not built through the record class (type conversion)", it, "self.desc.recordType(**obj)")
 
+    # ------------------------------------------------------------------ R19.6 (sibling rule) split+avro: the part that is finalised is the one that was written
+    ctx.import_rule("C17", "R17.4", "R19.6", "rdump --split -w avro://: on the limit the FULL part is flushed and closed before the next one is opened (a flush of the fresh part writes an empty container header that the next write trips over)",
+                    constructs=["SplitWriter.write"])
+
+
 
 def _calls_float_epoch(prog, module, node) -> bool:
     """Does the assigned value call a package function whose body uses datetime.timestamp()?"""
